@@ -627,6 +627,50 @@ def e2e_job(job):
                                  "two write_setting(%r, ...) calls, expected [1, 1]" % (keep, nwrites, sid), lcase)
                     elif not (res["read"] == value or rs.same(res["read"], value)) or not (res["read2"] == value2 or rs.same(res["read2"], value2)):
                         acc.fail("C17|%s|%s|e2e|loops|readback-differs" % (fam, tn), "read back %r / %r after writing %r / %r" % (res["read"], res["read2"], value, value2), lcase)
+            # another call (a read of an unrelated register) starts while the write request is in flight (answers take 3 ticks): still
+            # exactly one write reaches the inverter, and the value reads back
+            if j % 4 == (seed + 1) % 4 and tn not in rs.GROUPS:
+                import asyncio as _aio
+                for keep in (False, True):
+                    for off in (0, 1, 2, 4):
+                        inv = siminv.make_inverter(fam, tcp, T=1, R=1)
+                        inv.set_keep_alive(keep)
+                        _, sim = siminv.build_direct(dict(cfg), default=lambda a: mix(seed + 3, a) & 0xFFFF)
+                        world = World(ScriptedPeer(siminv.responder_for(inv, sim), [], default=("answer", 3 / 16.0)))
+                        lp = VLoop(world, max_time=1e5)
+                        acc.case()
+                        acc.nontrivial("e2e-overlap", variant, sid, repr(value), tcp, keep, off)
+                        ocase = {"variant": variant, "setting": sid, "value": value if not isinstance(value, datetime) else value.isoformat(), "tcp": tcp, "e2e": True,
+                                 "seed": seed, "overlap_read": off, "keep": keep}
+                        res = {}
+
+                        async def main3():
+                            await inv.read_device_info()
+                            res["w0"] = all_write_count(sim)
+
+                            async def writer():
+                                await inv.write_setting(sid, value)
+
+                            async def reader():
+                                await _aio.sleep(off / 16.0 + 1e-6)
+                                try:
+                                    await (inv.read_sensor("vpv1") if fam != "ES" else inv.read_setting("eco_mode_2_switch"))
+                                except Exception:
+                                    pass
+                            await _aio.gather(writer(), reader())
+                            res["nw"] = all_write_count(sim) - res["w0"]
+                            res["got"] = await inv.read_setting(sid)
+
+                        o = lp.run(main3())
+                        lp.idle()
+                        lp.shutdown()
+                        if o.hang is not None or o.exc is not None:
+                            acc.fail("C17|%s|%s|e2e|overlap|failed" % (fam, tn), "write_setting while a read starts %d ticks later: %r %r" % (off, o.hang, o.exc), ocase)
+                        elif res["nw"] != 1:
+                            acc.fail("C17|%s|%s|e2e|overlap|write-count" % (fam, tn), "write_setting(%r) while a read of another register starts %d ticks later (keep-alive %s): the inverter "
+                                     "received %d write requests, expected exactly 1" % (sid, off, keep, res["nw"]), ocase)
+                        elif not (res["got"] == value or rs.same(res["got"], value)):
+                            acc.fail("C17|%s|%s|e2e|overlap|readback-differs" % (fam, tn), "read back %r after writing %r" % (res["got"], value), ocase)
             # two writes of a one-byte setting back to back (no read in between) while a second master / the vendor app changed
             # the OTHER half of the shared register between them: the second write must keep what is there NOW
             if setting.size_ == 1:
